@@ -184,9 +184,68 @@ Definition h_roundtrip (c : case_C16) : bool :=
               present only containment / no-overwrite are required *)
            negb (is_none (hd_error (c_pre c))) || fs_eqb (i_dst c) (dst_init (c_pre c))).
 
+(* ---- import through a schema that is TRUTHFUL but possibly PARTIAL.
+   [schema_sound]: whatever the schema yields for an exported job path agrees exactly (same keys' values,
+   same JSON types) with that job's state point on the top-level keys it yields - it may leave keys
+   out (e.g. the keys that are constant across the jobs and therefore not part of the auto path) or
+   decline a path.  A schema that yields a DIFFERENT value or type (1.0 for 1, True for 1) is not a
+   "matching schema" in the sense of the property and is outside these two clauses. *)
+Definition sub_sp (a b : json) : bool :=
+  match a, b with
+  | JObj ka, JObj kb => forallb (fun kv => match alookup (fst kv) kb with Some w => sp_same (snd kv) w | None => false end) ka
+  | _, _ => false
+  end.
+Definition schema_sound (c : case_C16) : bool :=
+  extra_outside c &&
+  match c_schema c with
+  | SchNone => true
+  | SchStr text =>
+      match schema_compile text with
+      | ROk fields =>
+          Nat.eqb (List.length (x_map c)) (List.length (c_jobs c)) &&
+          forallb (fun jd => match parse_path fields (normpath (snd jd)) with
+                             | ROk (Some sp) => sub_sp sp (j_sp (fst jd))
+                             | ROk None => true
+                             | _ => false
+                             end) (combine (c_jobs c) (x_map c))
+      | _ => false
+      end
+  | SchCall tab =>
+      Nat.eqb (List.length (x_map c)) (List.length (c_jobs c)) &&
+      forallb (fun jd => match alookup (normpath (snd jd)) tab with
+                         | Some (Some sp) => sub_sp sp (j_sp (fst jd))
+                         | Some None => true
+                         | None => false
+                         end) (combine (c_jobs c) (x_map c)) &&
+      forallb (fun e => match snd e with
+                        | None => true
+                        | Some _ => existsb (fun d => str_eqb (normpath d) (fst e)) (x_map c)
+                        end) tab
+  end.
+
+(* "the same job ids with identical state points": every job directory the import leaves behind carries
+   the id of the state point its signac_statepoint.json holds (no job under a contradicting id) *)
+Definition h_ids (c : case_C16) : bool :=
+  negb (i_run c) || negb (schema_sound c) ||
+  forallb (fun e => match fst e, snd e with
+                    | [w; id; f], Some bytes =>
+                        negb (str_eqb f FN_SP) ||
+                        match parse_get (o_parse (c_oracle c)) bytes with
+                        | Some v => str_eqb (job_id_of (c_oracle c) v) id
+                        | None => false
+                        end
+                    | _, _ => true
+                    end) (i_dst c).
+
+(* "or the call raises before any job has been copied": with the state point files in place, a sound
+   schema either imports or raises while the (empty) project is still empty *)
+Definition h_import_raise_clean (c : case_C16) : bool :=
+  negb (i_run c) || is_none (i_exn c) || negb (schema_sound c) || c_strip c
+  || negb (is_none (hd_error (c_pre c))) || fs_eqb (i_dst c) (dst_init (c_pre c)).
+
 Definition holds_C16 (c : case_C16) : bool :=
   h_src c && h_export_contained c && h_unique c && h_leafnode c && h_raise_clean c
-  && h_import_contained c && h_no_overwrite c && h_roundtrip c.
+  && h_import_contained c && h_no_overwrite c && h_roundtrip c && h_ids c && h_import_raise_clean c.
 
 Definition violation_C16 (c : case_C16) : bool := negb (holds_C16 c).
 
@@ -200,4 +259,5 @@ Definition violations_C16 (cs : list case_C16) : list N := indices_where violati
 (* diagnostics used while developing / in replays: which clauses fail, which part mismatches *)
 Definition diag_C16 (c : case_C16) : list bool :=
   [mismatch_export c; mismatch_import c; h_src c; h_export_contained c; h_unique c; h_leafnode c;
-   h_raise_clean c; h_import_contained c; h_no_overwrite c; h_roundtrip c; schema_faithful c].
+   h_raise_clean c; h_import_contained c; h_no_overwrite c; h_roundtrip c; schema_faithful c;
+   h_ids c; h_import_raise_clean c; schema_sound c].
